@@ -835,6 +835,12 @@ fn sweep_taiko(run: &mut Run, lines: &mut Lines, rng: &mut Rng, cx: &Ctx, attrs:
             in_unit(run, cx.id, &format!("TaikoScoreState::accuracy of {state:?}"), a, cx.repro);
             lines.push(run, cx.id, format!("ACCT {},{},{}", state.n300, state.n100, state.misses), format!("acc={}", fnum(a)));
             lines.pp.push(run, cx.id, "real-map", crate::c09pp::taiko_req(attrs, &cx.flags, &state), crate::c09pp::taiko_obs(&pa));
+            // hypothesis of the taiko theorems: 0 <= mono_stamina_factor < 5/3 (acc_scaling_shift > 0)
+            let msf = attrs.mono_stamina_factor;
+            run.count(&format!(
+                "real-map taiko mono_stamina_factor {}",
+                if msf == 0.0 { "= 0" } else if msf > 0.0 && msf <= 1.0 { "in (0,1]" } else if msf > 1.0 && msf < 5.0 / 3.0 { "in (1,5/3)" } else if msf >= 5.0 / 3.0 { ">= 5/3  <-- NaN territory" } else { "negative/NaN" }
+            ));
             // guard logic of compute_deviation_upper_bound / calculate
             let ghw_pos = attrs.great_hit_window > 0.0;
             lines.push(
